@@ -278,7 +278,19 @@ public:
         EdgeWeightMapType spanner_weight_map = get(boost::edge_weight,
                 _spanner);
         ExactAlgorithm exact_mcb_algo;
-        _weight += exact_mcb_algo(_spanner, spanner_weight_map, out);
+        std::list<std::list<Edge>> spanner_cycles;
+        _weight += exact_mcb_algo(_spanner, spanner_weight_map,
+                std::back_inserter(spanner_cycles));
+
+        // the exact algorithm reports edges of the (private) spanner, translate
+        // them to edges of the input graph before handing them to the caller
+        for (const auto &spanner_cycle : spanner_cycles) {
+            std::list<Edge> cycle_edgelist;
+            for (const auto &spanner_e : spanner_cycle) {
+                cycle_edgelist.push_back(_edge_spanner_to_g.at(spanner_e));
+            }
+            *out++ = cycle_edgelist;
+        }
 
         // compute remaining cycles
         parmcb::detail::NonSpannerEdgesCycleBuilder<Graph, WeightMap,
@@ -346,6 +358,8 @@ private:
         }
 
         // construct edge set of spanner
+        EdgeWeightMapType spanner_weight_map = get(boost::edge_weight,
+                _spanner);
         EdgeVectorIt ei, ei_end;
         for (ei = sorted_edges.begin(), ei_end = sorted_edges.end();
                 ei != sorted_edges.end(); ++ei) {
@@ -365,6 +379,7 @@ private:
                 Edge spanner_e = std::get<0>(
                         boost::add_edge(spanner_v, spanner_u, _spanner));
                 _edge_spanner_to_g[spanner_e] = e;
+                spanner_weight_map[spanner_e] = _weight_map[e];
             } else {
                 // record missing edge from spanner
                 _non_spanner_edges.push_back(e);
